@@ -137,9 +137,42 @@ def c03j_run(tid, wcfg, cfgline, seed):
     return rec.lines
 
 
+def c03s_run(tid, wcfg, cfgline, wait_units):
+    """C03, waiting for the peer's OPEN: the connection is up, the peer stays silent for `wait_units` (None: for ever, here
+    320 s) and then sends its OPEN and a KEEPALIVE.  The limit in OpenSent is the fixed large hold time of 4 minutes whatever
+    hold time is configured."""
+    w = World(wcfg)
+    rec = R.Recorder(w, tid, cfgline)
+    c = first_session(w, rec)
+    if c is None:
+        return rec.lines
+    left = wait_units if wait_units is not None else 320 * UNIT
+    while left > 0 and rec.pre['st'] == 'OPENSENT':
+        du = due_units(w)
+        d = left if du is None else min(left, du)
+        if d > 0:
+            rec.step({'k': 'tick', 'c': 0, 'n': d}, 0)
+            left -= d
+        guard = 0
+        while w.due_calls() and rec.pre['st'] == 'OPENSENT' and guard < 10:
+            rec.step({'k': 'firedue', 'c': 0}, 0)
+            guard += 1
+        if d == 0 and not guard:
+            break
+    if wait_units is not None and rec.pre['st'] == 'OPENSENT' and rec.pre['trcs'] == 'open':
+        o = rec.step({'k': 'msg', 'c': c, 'm': 'OPEN', 'h': 90}, c)
+        if o['st'] == 'OPENCONFIRM':
+            rec.step({'k': 'msg', 'c': c, 'm': 'KA'}, c)
+    return rec.lines
+
+
 def c03j_jobs(tier, seed):
     jobs = []
     n = 0
+    for hold in (0, 3, 90, 180, 239, 240, 241, 300, 3600, 65535):
+        for wait in (None, 239 * UNIT, 240 * UNIT - 1, 240 * UNIT, 240 * UNIT + 1, 250 * UNIT, 300 * UNIT):
+            wcfg = dict(tick=1.0 / UNIT, tnum=1, tden=UNIT, crt=20, idle=20, hold=hold, las=65001, ras=65002)
+            jobs.append(('c03s', wcfg, wait))
     for hold in (0, 3, 4, 5, 10, 20, 45, 90, 180):
         for _ in range(35 if tier == 'quick' else 1500):
             wcfg = dict(tick=1.0 / UNIT, tnum=1, tden=UNIT, crt=20, idle=20, hold=hold, las=65001, ras=65002)
@@ -899,6 +932,9 @@ def run_jobs(args):
             elif job[0] == 'c02r':
                 _, wcfg, sd = job
                 lines = c02r_run(tid, wcfg, cfgline_fn(wcfg), sd)
+            elif job[0] == 'c03s':
+                _, wcfg, wait = job
+                lines = c03s_run(tid, wcfg, cfgline_fn(wcfg), wait)
             elif job[0] == 'c03j':
                 _, wcfg, sd = job
                 lines = c03j_run(tid, wcfg, cfgline_fn(wcfg), sd)
